@@ -37,6 +37,9 @@ struct Case {
     /// After the last op the runtime's end of the input channel is dropped (end of stream).
     #[serde(default)]
     close_input: bool,
+    /// Every write handle is dropped from inside the n-th lifecycle callback (1-based).
+    #[serde(default)]
+    drop_writers_in_callback: Option<usize>,
 }
 
 impl Case {
@@ -48,6 +51,7 @@ impl Case {
             seed: self.seed,
             budget: self.budget.max(8),
             in_cap: self.in_cap.max(4096),
+            drop_at: self.drop_writers_in_callback,
         }
     }
 }
@@ -71,7 +75,7 @@ impl Impl {
 fn run(imp: Impl, cfg: &Cfg, ops: &[DOp], batch: &[bool], close_input: bool) -> RunObs {
     let settle_after = |i: usize| !batch.get(i).copied().unwrap_or(false);
     block_on_paused(cfg.seed, async {
-        let rec = Rec::new();
+        let rec = Rec::new(cfg.drop_at);
         match imp {
             Impl::Client => {
                 let sys = ClientSys::new(cfg, rec.clone());
@@ -81,11 +85,10 @@ fn run(imp: Impl, cfg: &Cfg, ops: &[DOp], batch: &[bool], close_input: bool) -> 
             }
             Impl::Hosted => {
                 let sys = HostedSys::new(cfg, rec.clone(), ops);
-                let setup = sys.setup_error.clone();
                 let mut d = Driver::new(sys, rec);
                 d.run(ops, settle_after, close_input);
                 let mut obs = d.observe();
-                if let Some(e) = setup {
+                if let Some(e) = d.sys.setup_error.clone() {
                     obs.hang = Some(format!("harness setup: {}", e));
                 }
                 obs
@@ -290,9 +293,12 @@ fn classes(v: &mut Verdict, case: &Case, ex: &[Expect]) {
     let mut sessions = 0;
     let mut writers_dropped = false;
     let mut output_dropped = false;
+    let mut reconnected = false;
     for (op, e) in case.ops.iter().zip(ex.iter()) {
         if let DOp::N(n) = op {
             let linked = matches!(e.phase, Phase::Sup | Phase::Pre | Phase::Syn);
+            v.class_if(reconnected && n.is_event() && e.phase == Phase::Sup, "suppressed-event-after-reconnect");
+            v.class_if(reconnected && n.is_event() && e.phase == Phase::Pre, "live-unsynced-event-after-reconnect");
             if writers_dropped && e.phase != Phase::Dead {
                 v.class("notification-after-writers-dropped(read-only-mode)");
                 v.class_if(n.is_event() && e.phase == Phase::Sup, "suppressed-event-in-read-only-mode");
@@ -325,6 +331,11 @@ fn classes(v: &mut Verdict, case: &Case, ex: &[Expect]) {
                     output_dropped = true;
                 }
                 Ctl::Stop => v.class("handle-stop"),
+                Ctl::Reconnect => {
+                    v.class("reconnect(new-session-without-unlinked)");
+                    v.class_if(e.phase == Phase::Syn, "reconnect-while-synced");
+                    reconnected = true;
+                }
             }
         } else {
             v.class_if(matches!(e.phase, Phase::Sup | Phase::Pre | Phase::Syn), "local-write-linked");
@@ -337,6 +348,7 @@ fn classes(v: &mut Verdict, case: &Case, ex: &[Expect]) {
     v.class_if(sessions >= 2, "relink");
     v.class_if(case.batch.iter().any(|b| *b), "batched-schedule");
     v.class_if(case.close_input, "input-closed-at-end");
+    v.class_if(case.drop_writers_in_callback.is_some(), "writers-dropped-inside-callback");
     v.class_if(case.events_when_not_synced, "events_when_not_synced");
     v.class_if(case.terminate_on_unlinked, "terminate_on_unlinked");
     // the property's non-triviality rule (DESIGN.md C08 NT)
@@ -506,7 +518,7 @@ fn write_of(kind: Kind, r: &Raw) -> Write {
 /// Turn raw choices into a sequence a well-behaved link can produce:
 /// `(linked event* [synced event*] unlinked)*`, a refused link (`unlinked` while unlinked), for
 /// value downlinks at least one event before `synced`; local writes anywhere.
-fn legalise(kind: Kind, raws: &[Raw], with_writes: bool, read_only_from_start: bool) -> Vec<DOp> {
+fn legalise(kind: Kind, raws: &[Raw], with_writes: bool, read_only_from_start: bool, term: bool) -> Vec<DOp> {
     #[derive(PartialEq)]
     enum St {
         Unl,
@@ -515,14 +527,22 @@ fn legalise(kind: Kind, raws: &[Raw], with_writes: bool, read_only_from_start: b
     }
     let mut st = St::Unl;
     let mut ops = vec![];
+    // a reconnect needs the hosted handle (the failing write) and terminate_on_unlinked = false
+    let mut can_reconnect = !term && !read_only_from_start;
     if read_only_from_start {
         ops.push(DOp::C(Ctl::DropWriters));
     }
     for r in raws {
         // control actions are legal in every state (they are not notifications)
         match r.c {
+            243..=249 if can_reconnect => {
+                ops.push(DOp::C(Ctl::Reconnect));
+                st = St::Unl;
+                continue;
+            }
             250..=252 => {
                 ops.push(DOp::C(Ctl::DropWriters));
+                can_reconnect = false;
                 continue;
             }
             253 | 254 => {
@@ -531,6 +551,7 @@ fn legalise(kind: Kind, raws: &[Raw], with_writes: bool, read_only_from_start: b
             }
             255 => {
                 ops.push(DOp::C(Ctl::Stop));
+                can_reconnect = false;
                 continue;
             }
             _ => {}
@@ -616,10 +637,16 @@ fn arb_case(kind: Kind, max_ops: usize, legal: bool) -> impl Strategy<Value = Ca
             2 => proptest::collection::vec(any::<bool>(), max_ops),
             1 => Just(vec![true; max_ops]),
         ],
+        prop_oneof![3 => Just(None), 2 => (1usize..12).prop_map(Some)],
     )
-        .prop_map(move |((ewns, term, seed, with_writes, ro_start, close_input), budget, in_cap, raws, mut batch)| {
-            let mut ops = if legal { legalise(kind, &raws, with_writes, ro_start) } else { anyorder(kind, &raws) };
+        .prop_map(move |((ewns, term, seed, with_writes, ro_start, close_input), budget, in_cap, raws, mut batch, drop_cb)| {
+            let mut ops = if legal { legalise(kind, &raws, with_writes, ro_start, term || drop_cb.is_some()) } else { anyorder(kind, &raws) };
             ops.truncate(max_ops);
+            if drop_cb.is_some() {
+                // the position of the drop is a callback, not an op: keep ops that depend on the
+                // hosted handle still existing out of these cases
+                ops.retain(|op| !matches!(op, DOp::C(Ctl::Stop) | DOp::C(Ctl::Reconnect)));
+            }
             batch.truncate(ops.len());
             Case {
                 kind,
@@ -631,6 +658,7 @@ fn arb_case(kind: Kind, max_ops: usize, legal: bool) -> impl Strategy<Value = Ca
                 ops,
                 batch,
                 close_input,
+                drop_writers_in_callback: drop_cb,
             }
         })
 }
